@@ -2,6 +2,7 @@
 
 use proc_macro::TokenStream;
 use quote::quote;
+use syn::ext::IdentExt;
 use syn::{DataEnum, DeriveInput, Ident, Lit, Meta, Variant};
 
 /// Derives the `FromJson` trait for an enum.
@@ -21,7 +22,7 @@ pub fn from_json_enum(ast: DeriveInput, r#enum: &DataEnum) -> TokenStream {
                 .iter()
                 .any(|attr| attr.path.is_ident("rename"))
             {
-                variant.ident.to_string()
+                variant.ident.unraw().to_string()
             } else {
                 let attr = variant
                     .attrs
@@ -80,7 +81,7 @@ pub fn into_json_enum(ast: DeriveInput, r#enum: &DataEnum) -> TokenStream {
                 .iter()
                 .any(|attr| attr.path.is_ident("rename"))
             {
-                variant.ident.to_string()
+                variant.ident.unraw().to_string()
             } else {
                 let attr = variant
                     .attrs
